@@ -56,7 +56,8 @@ TIESKEL = ["JanetModel.Peg.TieSkel." + t for t in (
         "to", "thru", "til", "lenprefix", "between", "split", "unref", "gettag", "backmatch", "choice", "sequence", "readint"))]
 # the two fuel-hypothesis cases restated about the whole run (fuel monotonicity, Peg/FuelMono.lean)
 TIESKELRUN = ["JanetModel.Peg.TieSkel." + t for t in (
-    "between_returns_of_run", "split_returns_of_run", "between_returns_any_fuel", "split_returns_any_fuel")]
+    "between_returns_of_run", "split_returns_of_run", "between_returns_any_fuel", "split_returns_any_fuel",
+    "decoded_between_of_run", "decoded_split_of_run")]
 ENTRIES = ("match", "find", "findall", "replace", "replaceall")
 
 
